@@ -35,6 +35,13 @@ fn main() {
         let progress = args.get(3).map_or(false, |x| x == "1");
         std::process::exit(c09::child_main(args[2].as_str(), progress));
     }
+    if args[1] == "c09-child-sweep" {
+        let progress = args.get(3).map_or(false, |x| x == "1");
+        std::process::exit(c09::child_sweep_main(args[2].as_str(), progress));
+    }
+    if args[1] == "c09-child-scripted" {
+        std::process::exit(c09::child_scripted_main(args[2].as_str()));
+    }
     let tier = args[2].as_str();
     let code = match args[1].as_str() {
         "C01" => bookprops::c01(tier),
